@@ -345,7 +345,7 @@ def h_option_flatten(pattern, deep):
 
 
 def jobs_for(prop, tier):
-    return {'C01': jobs_c01, 'C05': jobs_c05, 'C09': jobs_c09}.get(prop, lambda t: [])(tier)
+    return {'C01': jobs_c01, 'C03': jobs_c03, 'C05': jobs_c05, 'C09': jobs_c09}.get(prop, lambda t: [])(tier)
 
 
 # ------------------------------------------------------------------------------------------------ C01: getitem_next of list nodes
@@ -609,3 +609,105 @@ def jobs_c01(tier):
             for nidx in (1, 2):
                 js.append((h_getitem_next_array, (cls, lens, nidx), 600))
     return js
+
+
+# ------------------------------------------------------------------------------------------------ C03: ListOffsetArray64::reduce_next, local branch
+@guard
+def h_reduce_local(lens):
+    """ListOffsetArray64::reduce_next for a reduction below this list level (the 'local' branch, e.g. axis=-1 on lists of numbers): the content
+    is handed exactly the elements covered by the lists, with parents[k] = index of the list holding element k and starts[i] = position of
+    list i inside what is handed over (this is what argmin/argmax subtract); the results come back one per list"""
+    lens = list(lens)
+    n, total = len(lens), sum(lens)
+    nc = NodeCtx(['LOA', 'LA', 'RA', 'IDX', 'CNT', 'UTL', 'KD', 'IDS', 'NA'], [], unwind=max(10, total + n + 6))
+    RED = z3.Function('RED', z3.BitVecSort(64), z3.BitVecSort(64))
+    seen = []
+
+    def s_reduce_next(eng, fr, ins, st, name, argv):
+        sret, selfp, reducer, negaxis, starts, shifts, parents, outlength, mask, keepdims = argv
+        nm, info = nc.content_info(selfp, st, eng)
+        seen.append(dict(pc=st.pc, info=info, negaxis=negaxis, starts=nc.index_terms(st.mem, starts, 'starts')[0], parents=nc.index_terms(st.mem, parents, 'parents')[0],
+                         nshifts=st.mem.o[shifts.obj].cells[shifts.off + 40][0], outlength=outlength, mask=mask, keepdims=keepdims, reducer=reducer))
+        k = z3.BitVec('k!', 64)
+        nc._ret(st, sret, nc.fresh_content(eng, st, outlength, z3.Lambda([k], RED(k)), derived='reduced'))
+        return None
+
+    def s_branch_depth(eng, fr, ins, st, name, argv):
+        return [z3.BitVecVal(0, 8), BV(1)] if False else None
+    nc.m.eng.stubs['vf$slot%d' % nc.slot('11reduce_nextERKNS_7ReducerEl')] = s_reduce_next
+    # the opaque content is a leaf level: branch_depth() = (false, 1), not an option type
+    nc.m.eng.stubs['vf$slot%d' % nc.slot('12branch_depthEv')] = lambda eng, fr, ins, st, name, argv: [z3.BitVecVal(0, 8), BV(1)]
+    nc.m.eng.stubs['vf$slot%d' % nc.slot('20dimension_optiontypeEv')] = lambda eng, fr, ins, st, name, argv: z3.BitVecVal(0, 1)
+    this, lists, offs = build_listoffset64(nc, lens)
+    # outer arguments as Content::reduce passes them for the outermost list: one group
+    p0 = nc.m.array('parents0', ('i', 64), max(1, n), const=True, arr=z3.K(z3.BitVecSort(64), BV(0)))
+    s0 = nc.m.array('starts0', ('i', 64), 1, const=True, arr=z3.K(z3.BitVecSort(64), BV(0)))
+    cells = {}
+    nc.index_cells(cells, 0, p0, BV(0), BV(n))
+    parents = nc.m.record('parents', cells, const=True)
+    cells = {}
+    nc.index_cells(cells, 0, s0, BV(0), BV(1))
+    starts = nc.m.record('starts', cells, const=True)
+    cells = {}
+    nc.index_cells(cells, 0, NULL, BV(0), BV(0))
+    shifts = nc.m.record('shifts', cells, const=True)
+    reducer = nc.m.record('reducer', {0: (Ptr('fakevt', 0), 8)}, const=True)
+    nc.m.record('ret', {})
+    # branch_depth() of the opaque content: (false, 1) - a leaf level below this list
+    def s_bd(eng, fr, ins, st, name, argv):
+        return z3.Concat(BV(1), BV(0, 8)) if False else None
+    mask, keep = z3.BitVecVal(0, 1), z3.BitVecVal(0, 1)
+    fn = '_ZNK7awkward17ListOffsetArrayOfIlE11reduce_nextERKNS_7ReducerElRKNS_7IndexOfIlEES8_S8_lbb'
+    out = nc.m.call(fn, [Ptr('ret', 0), this, reducer, BV(1), starts, shifts, parents, BV(1), mask, keep])
+    obls = [('reduce_next does not raise', out.raised),
+            ('the content is asked (exactly once on every path)', z3.Not(z3.Or([ob['pc'] for ob in seen] + [z3.BoolVal(False)])))]
+    for a_, b_ in itertools.combinations(seen, 2):
+        obls.append(('the content is asked at most once', z3.And(a_['pc'], b_['pc'])))
+    for ob in seen:
+        info, g = ob['info'], ob['pc']
+        G = lambda c: z3.And(g, c)
+        obls.append(('the content handed over has the summed length of the lists', G(info['length'] != total)))
+        for k in range(total):
+            obls.append(('element %d handed over is element %d of the covered range' % (k, k), G(z3.Select(info['atoms'], BV(k)) != offs[0] + k)))
+        want_par = [i for i, L in enumerate(lens) for _ in range(L)]
+        if len(ob['parents']) != total:
+            obls.append(('one parent per element', g))
+        else:
+            for k, (a, w) in enumerate(zip(ob['parents'], want_par)):
+                obls.append(('parents[%d] is the list holding element %d' % (k, k), G(a != w)))
+        if len(ob['starts']) != n:
+            obls.append(('one start per list', g))
+        else:
+            acc = 0
+            for i, L in enumerate(lens):
+                obls.append(('starts[%d] is where list %d begins inside the content handed over' % (i, i), G(ob['starts'][i] != acc)))
+                acc += L
+        obls.append(('outlength is the number of lists', G(ob['outlength'] != n)))
+        obls.append(('negaxis is passed on unchanged', G(ob['negaxis'] != 1)))
+        obls.append(('no shifts are invented', G(ob['nshifts'] != 0)))
+    for g, res in nodeh.decode_cases(nc, out.mem, nc.m.cell('ret', 0)):
+        if res is None:
+            obls.append(('a result is returned', z3.And(g, z3.Not(out.raised))))
+        else:
+            obls += [(nm, z3.And(g, c)) for nm, c in compare(value(res), [[Elem(RED(BV(i))) for i in range(n)]])]
+
+    def replay(model, ent):
+        ov = offsets_values(model, offs)
+        lc = max(model.eval(nc.lencontent, model_completion=True).as_signed_long(), ov[-1])
+        if lc > 200:
+            return False, 'content too long to replay', dict(offsets=ov)
+        prog = 'i64 %s listoffset64 %s reduce argmax -1 0 0' % (fullnative.ints(range(lc)), fullnative.ints(ov))
+        exp = [L - 1 if L > 0 else -1 for L in lens]
+        r1 = akrun_check(prog, exp, 'argmax(axis=-1) of ListOffsetArray64(offsets=%s) over 0..%d' % (ov, lc - 1))
+        if r1[0]:
+            return r1
+        prog = 'i64 %s listoffset64 %s reduce sum -1 0 0' % (fullnative.ints(range(lc)), fullnative.ints(ov))
+        return akrun_check(prog, [sum(range(ov[i], ov[i + 1])) for i in range(n)], 'sum(axis=-1) of ListOffsetArray64(offsets=%s)' % ov)
+    return mdischarge(nc.m, 'ListOffsetArray64::reduce_next local lens=%s' % ','.join(map(str, lens)), obls, [('non-zero offset origin', offs[0] > 0)], replay=replay,
+                      prefer=[offs[0] <= 3, offs[0] >= 1, nc.lencontent <= offs[-1] + 2],
+                      extra=dict(bounds='list lengths %s concrete (case split); offsets origin symbolic; one outer group; opaque leaf content' % lens))
+
+
+def jobs_c03(tier):
+    shapes = [(2,), (0, 3), (2, 0, 1)] if tier == 'quick' else [l for n in (1, 2, 3) for l in itertools.product(range(4), repeat=n)]
+    return [(h_reduce_local, (l,), 600) for l in shapes]
